@@ -15,6 +15,9 @@ import (
 type Parser struct {
 	scanner Scanner
 	levels  int // current nesting depth of statements and expressions
+
+	// True while parsing the body of a function that is not variadic.
+	noVararg bool
 }
 
 // The parser and the compiler are recursive, so the nesting of statements and
@@ -408,6 +411,9 @@ func (p *Parser) ShortExp(t *token.Token) (ast.ExpNode, *token.Token) {
 	case token.SgOpenBrace:
 		exp, t = p.TableConstructor(t)
 	case token.SgEtc:
+		if p.noVararg {
+			panic(Error{Got: t, Message: "cannot use '...' outside a vararg function"})
+		}
 		exp, t = ast.NewEtc(t), p.Scan()
 	case token.KwFunction:
 		exp, t = p.FunctionDef(p.Scan())
@@ -493,7 +499,11 @@ ParamsLoop:
 		}
 	}
 	expectType(t, token.SgCloseBkt, "')'")
+	// Each function body has its own '...' (the main chunk is variadic).
+	outerNoVararg := p.noVararg
+	p.noVararg = !hasEtc
 	body, endTok := p.Block(p.Scan())
+	p.noVararg = outerNoVararg
 	expectType(endTok, token.KwEnd, "'end'")
 	def := ast.NewFunction(startTok, endTok, ast.NewParList(names, hasEtc), body)
 	return def, p.Scan()
